@@ -1,5 +1,6 @@
 import PGM.Proofs.Semantics
 import PGM.Model.Loss
+import PGM.Proofs.LossHess
 /-!
 # The estimation objective: each measurement once, exact second-order expansion, smoothness bound
 (statements for C04; `K` any linearly ordered field, plain arithmetic `PlainOf K`)
@@ -43,11 +44,20 @@ def cvAdd (a b : CliqueVec (PlainOf K)) : CliqueVec (PlainOf K) := a.map (fun p 
 def cvDot (a b : CliqueVec (PlainOf K)) : K := (a.map (fun p => vdot (vals p.2) (vals (b.get p.1)))).sum
 def cvNormSq (a : CliqueVec (PlainOf K)) : K := cvDot a a
 
+-- the well-formedness predicates in the form used by the helper files (`PGM.LossAux`)
+set_option linter.unusedSectionVars false in
+theorem MeasOK.aux {d : Dom} {m : Meas (PlainOf K)} (h : MeasOK d m) : LossAux.MeasOK d m :=
+  ⟨h.proj_nodup, h.proj_sub, h.rows, h.ylen, h.noise_pos⟩
+set_option linter.unusedSectionVars false in
+theorem VecOK.aux {d : Dom} {cliques : List Clique} {mu : CliqueVec (PlainOf K)}
+    (h : VecOK d cliques mu) : LossAux.VecOK d cliques mu :=
+  ⟨h.dom_wf, h.cliques_nodup, h.clique_ok, h.keys, h.tables⟩
+
 /-- the clique a measurement is charged to, if any -/
 theorem groupOf_spec (d : Dom) (cliques : List Clique) (proj : List Attr) :
     (∀ c, groupOf d cliques proj = some c → c ∈ cliques ∧ JT.subset proj c = true) ∧
     ((∃ c ∈ cliques, JT.subset proj c = true) → ∃ c, groupOf d cliques proj = some c) := by
-  sorry
+  exact ⟨fun c h => LossAux.groupOf_some_mem d cliques proj c h, LossAux.groupOf_exists d cliques proj⟩
 
 /-- **each measurement is counted exactly once**, however the cliques overlap or repeat: the loss
 is the sum over the supplied measurements of the measurement's own loss at its clique -/
@@ -56,7 +66,7 @@ theorem loss_each_once (d : Dom) (cliques : List Clique) (meas : List (Meas (Pla
     (hcov : ∀ m ∈ meas, ∃ c ∈ cliques, JT.subset m.proj c = true) :
     (marginalLoss d cliques meas mu).1.v
       = (meas.map (fun m => lossM m (mu.get ((groupOf d cliques m.proj).getD [])))).sum := by
-  sorry
+  exact LossAux.loss_each_once d cliques meas mu hmu.aux (fun m h => (hm m h).aux) hcov
 
 /-- **exact second-order expansion**: `L(μ+h) = L(μ) + ⟨∇L(μ), h⟩ + Σ_m ½‖c_m Q_m π_m h‖²`, which
 pins the returned gradient as the derivative of the loss -/
@@ -66,7 +76,7 @@ theorem loss_expansion (d : Dom) (cliques : List Clique) (meas : List (Meas (Pla
     (marginalLoss d cliques meas (cvAdd mu h)).1.v
       = (marginalLoss d cliques meas mu).1.v + cvDot (marginalLoss d cliques meas mu).2 h
         + (meas.map (fun m => quadM m (h.get ((groupOf d cliques m.proj).getD [])))).sum := by
-  sorry
+  exact LossAux.loss_expansion d cliques meas mu h hmu.aux hh.aux (fun m h => (hm m h).aux) hcov
 
 /-- **smoothness bound**: with `eigs[m]` an upper bound on the largest eigenvalue of `QₘᵀQₘ`
 (the `eigsh` contract), the quadratic term is at most `½ · lipschitz · ‖h‖²` -/
@@ -78,6 +88,6 @@ theorem hessian_bound (d : Dom) (cliques : List Clique) (meas : List (Meas (Plai
       vdot (qx meas[i] x) (qx meas[i] x) ≤ (eigs.getD i ⟨0⟩).v * vdot x x) :
     (meas.map (fun m => quadM m (h.get ((groupOf d cliques m.proj).getD [])))).sum
       ≤ (1 / 2) * (lipschitz d cliques meas eigs).v * cvNormSq h := by
-  sorry
+  exact LossAux.hessian_bound d cliques meas eigs h hh.aux (fun m h => (hm m h).aux) hcov hlen hsizes hne heig
 
 end PGM.Loss
